@@ -104,13 +104,14 @@ theorem blindUpdate_false {s : State} {c : Nat} {k : OpKind} (hb : blindUpdate s
 
 theorem pollStruct_update_new {s : State} (h : PollStruct s) (c : Nat) (k : OpKind)
     (hb : blindUpdate s c k = false) (ha : (s.chans c).added = false) :
-    PollStruct (pollUpdate (setInterest s c k) c) ∧ (pollUpdate (setInterest s c k) c).dead = s.dead := by
+    PollStruct (pollUpdate (setInterest s c k) c) ∧ (pollUpdate (setInterest s c k) c).dead = s.dead ∧
+      (pollUpdate (setInterest s c k) c).out = s.out := by
   have hne := blindUpdate_false hb ha
   obtain ⟨hi, _, hc⟩ := h.unreg c ha
   have hi' : ((setInterest s c k).chans c).index < 0 := by simpa [setInterest] using hi
   have hc' : (setInterest s c k).cmap (fdOf c) = none := by simpa [setInterest] using hc
   rw [pollUpdate_new hi' hc']
-  refine ⟨⟨?_, ?_, ?_, ?_⟩, rfl⟩
+  refine ⟨⟨?_, ?_, ?_, ?_⟩, rfl, rfl⟩
   · intro d hd
     by_cases hdc : d = c
     · subst hdc
@@ -154,7 +155,8 @@ theorem PollStruct.toNat_ne {s : State} (h : PollStruct s) {c d : Nat} (hc : (s.
 
 theorem pollStruct_update_old {s : State} (h : PollStruct s) (c : Nat) (k : OpKind)
     (ha : (s.chans c).added = true) :
-    PollStruct (pollUpdate (setInterest s c k) c) ∧ (pollUpdate (setInterest s c k) c).dead = s.dead := by
+    PollStruct (pollUpdate (setInterest s c k) c) ∧ (pollUpdate (setInterest s c k) c).dead = s.dead ∧
+      (pollUpdate (setInterest s c k) c).out = s.out := by
   obtain ⟨hi, hc, hp⟩ := h.reg c ha
   have hi' : 0 ≤ ((setInterest s c k).chans c).index := by simpa [setInterest] using hi
   have hc' : (setInterest s c k).cmap (fdOf c) = some c := by simpa [setInterest] using hc
@@ -162,7 +164,7 @@ theorem pollStruct_update_old {s : State} (h : PollStruct s) (c : Nat) (k : OpKi
       some (entryOf (s.chans c).events c) := by simpa [setInterest] using hp
   rw [pollUpdate_old hi' hc' hp' (entryOf_fst _ _)]
   have hlt := h.idx_lt ha
-  refine ⟨⟨?_, ?_, ?_, ?_⟩, rfl⟩
+  refine ⟨⟨?_, ?_, ?_, ?_⟩, rfl, rfl⟩
   · intro d hd
     by_cases hdc : d = c
     · subst hdc
@@ -232,7 +234,8 @@ theorem entryOf_decode (e : Nat) (m : Nat) :
 theorem pollStruct_remove {s : State} (h : PollStruct s) (c : Nat) (ha : (s.chans c).added = true)
     (he : (s.chans c).events = 0) :
     PollStruct (pollRemove (setChan s c { s.chans c with added := false }) c) ∧
-      (pollRemove (setChan s c { s.chans c with added := false }) c).dead = s.dead := by
+      (pollRemove (setChan s c { s.chans c with added := false }) c).dead = s.dead ∧
+      (pollRemove (setChan s c { s.chans c with added := false }) c).out = s.out := by
   obtain ⟨hi, hc, hp⟩ := h.reg c ha
   have hlt := h.idx_lt ha
   rw [he] at hp
@@ -244,6 +247,7 @@ theorem pollStruct_remove {s : State} (h : PollStruct s) (c : Nat) (ha : (s.chan
   have hScm : S.cmap = s.cmap := by subst hS; rfl
   have hSp : S.pollfds = s.pollfds := by subst hS; rfl
   have hSdead : S.dead = s.dead := by subst hS; rfl
+  have hSout : S.out = s.out := by subst hS; rfl
   have hc' : S.cmap (fdOf c) = some c := by rw [hScm]; exact hc
   have he' : (S.chans c).events = 0 := by rw [hSc]; exact he
   have hi' : 0 ≤ (S.chans c).index := by rw [hSc]; exact hi
@@ -253,7 +257,7 @@ theorem pollStruct_remove {s : State} (h : PollStruct s) (c : Nat) (ha : (s.chan
   by_cases hl : (s.chans c).index.toNat = s.pollfds.length - 1
   · have hl' : (S.chans c).index.toNat = S.pollfds.length - 1 := by rw [hSp, hidx]; exact hl
     rw [pollRemove_last hc' he' hi' hp' hl']
-    refine ⟨⟨?_, ?_, ?_, ?_⟩, hSdead⟩
+    refine ⟨⟨?_, ?_, ?_, ?_⟩, hSdead, hSout⟩
     · intro d hd
       by_cases hdc : d = c
       · subst hdc; simp [hSc] at hd
@@ -297,7 +301,7 @@ theorem pollStruct_remove {s : State} (h : PollStruct s) (c : Nat) (ha : (s.chan
       rw [entryOf_decode, if_neg hfm, hScm]; exact hmcm
     rw [pollRemove_mid hc' he' hi' hp' hl' hlast hm]
     have hidxlt : (s.chans c).index.toNat < s.pollfds.length - 1 := by omega
-    refine ⟨⟨?_, ?_, ?_, ?_⟩, hSdead⟩
+    refine ⟨⟨?_, ?_, ?_, ?_⟩, hSdead, hSout⟩
     · intro d hd
       by_cases hdc : d = c
       · subst hdc; simp [hSc] at hd
@@ -352,13 +356,24 @@ theorem report_dead (s : State) (c k) : (report s c k).dead = s.dead := by
 theorem report_blind (s : State) (c k) : (report s c k).blind = s.blind := by
   unfold report; split <;> rfl
 
-/-- on a poll loop every accepted operation keeps the slot invariant and fails no assertion, unless
-it is the first update of an unregistered channel and carries no interest (finding F21) -/
+/-- on a poll loop every operation keeps the slot invariant, fails no assertion and logs no failure,
+unless it is the first update of an unregistered channel and carries no interest (finding F21) -/
 theorem pollStruct_applyOp {s : State} (hbe : s.be = .poll) (h : PollStruct s) (c : Nat) (k : OpKind)
     (hb : (applyOp s c k).blind = false) :
-    PollStruct (applyOp s c k) ∧ (applyOp s c k).dead = s.dead := by
+    PollStruct (applyOp s c k) ∧ (applyOp s c k).dead = s.dead ∧
+      ∃ l, (applyOp s c k).out = s.out ++ l ∧ ∀ e ∈ l, e.isFailure = false := by
+  have hrep : ∀ t : State, PollStruct t → t.dead = s.dead → t.out = s.out →
+      PollStruct (report t c k) ∧ (report t c k).dead = s.dead ∧
+      ∃ l, (report t c k).out = s.out ++ l ∧ ∀ e ∈ l, e.isFailure = false := by
+    intro t h1 h2 h3
+    refine ⟨h1.afterReport c k, (report_dead t c k).trans h2, ?_⟩
+    unfold report
+    split
+    · exact ⟨[], by simp [h3], by simp⟩
+    · exact ⟨[.op c k (t.chans c).events (t.chans c).index], by simp [emit, h3],
+        by simp [Ev.isFailure, Ev.isCtlFailure, Ev.isAbort]⟩
   cases hd : s.dead with
-  | true => rw [applyOp_dead hd]; exact ⟨h, hd⟩
+  | true => rw [applyOp_dead hd]; exact ⟨h, hd, [], by simp, by simp⟩
   | false =>
     by_cases hacc : accepts s c k
     · cases hk : k.isUpdate with
@@ -369,48 +384,52 @@ theorem pollStruct_applyOp {s : State} (hbe : s.be = .poll) (h : PollStruct s) (
         rw [report_blind, (backStep_pollUpdate _ c).blind] at hb
         have hb2 : blindUpdate s c k = false := by
           simp only [setInterest, Bool.or_eq_false_iff] at hb; exact hb.2
-        rw [report_dead]
         cases ha : (s.chans c).added with
         | false =>
-          obtain ⟨h1, h2⟩ := pollStruct_update_new h c k hb2 ha
-          exact ⟨h1.afterReport c k, h2.trans hd⟩
+          obtain ⟨h1, h2, h3⟩ := pollStruct_update_new h c k hb2 ha
+          have := hrep _ h1 h2 h3
+          rw [hd] at this; exact this
         | true =>
-          obtain ⟨h1, h2⟩ := pollStruct_update_old h c k ha
-          exact ⟨h1.afterReport c k, h2.trans hd⟩
+          obtain ⟨h1, h2, h3⟩ := pollStruct_update_old h c k ha
+          have := hrep _ h1 h2 h3
+          rw [hd] at this; exact this
       | false =>
         cases k with
         | remove =>
           have hr : removeOk s c := hacc
-          rw [applyOp_remove hd hr, report_dead]
+          rw [applyOp_remove hd hr]
           have hbe' : (setChan s c { s.chans c with added := false }).be = .poll := hbe
           simp only [removeChannel, hbe']
-          obtain ⟨h1, h2⟩ := pollStruct_remove h c hr.1 hr.2.1
-          exact ⟨h1.afterReport c _, h2.trans hd⟩
+          obtain ⟨h1, h2, h3⟩ := pollStruct_remove h c hr.1 hr.2.1
+          have := hrep _ h1 h2 h3
+          rw [hd] at this; exact this
         | recreate =>
           have hr : recreateOk s c := hacc
-          rw [applyOp_recreate hd hr, report_dead]
-          refine ⟨PollStruct.afterReport ?_ c _, hd⟩
-          obtain ⟨hi, he, hc⟩ := h.unreg c hr.1
-          refine ⟨?_, ?_, ?_, ?_⟩
-          · intro d hdd
-            by_cases hdc : d = c
-            · subst hdc; simp [setChan] at hdd
-            · simp only [setChan, hdc, if_false] at hdd ⊢
-              exact h.reg d hdd
-          · intro d hdd
-            by_cases hdc : d = c
-            · subst hdc; simp [setChan, hc]
-            · simp only [setChan, hdc, if_false] at hdd ⊢
-              exact h.unreg d hdd
-          · exact h.cmapId
-          · intro i hlt
-            obtain ⟨d, hd1, hd2⟩ := h.cover i hlt
-            have hdc : d ≠ c := by intro e; subst e; rw [hr.1] at hd1; exact absurd hd1 (by simp)
-            exact ⟨d, by simp [setChan, hdc, hd1], by simp [setChan, hdc, hd2]⟩
+          rw [applyOp_recreate hd hr]
+          have hst : PollStruct (setChan s c {}) := by
+            obtain ⟨hi, he, hc⟩ := h.unreg c hr.1
+            refine ⟨?_, ?_, ?_, ?_⟩
+            · intro d hdd
+              by_cases hdc : d = c
+              · subst hdc; simp [setChan] at hdd
+              · simp only [setChan, hdc, if_false] at hdd ⊢
+                exact h.reg d hdd
+            · intro d hdd
+              by_cases hdc : d = c
+              · subst hdc; simp [setChan, hc]
+              · simp only [setChan, hdc, if_false] at hdd ⊢
+                exact h.unreg d hdd
+            · exact h.cmapId
+            · intro i hlt
+              obtain ⟨d, hd1, hd2⟩ := h.cover i hlt
+              have hdc : d ≠ c := by intro e; subst e; rw [hr.1] at hd1; exact absurd hd1 (by simp)
+              exact ⟨d, by simp [setChan, hdc, hd1], by simp [setChan, hdc, hd2]⟩
+          have := hrep _ hst rfl rfl
+          rw [hd] at this; exact this
         | _ => simp [OpKind.isUpdate] at hk
     · rw [applyOp_reject hd hacc]
-      exact ⟨h.congr rfl rfl (fun _ => rfl) (fun _ => rfl) (fun _ => rfl), hd⟩
-
+      exact ⟨h.congr rfl rfl (fun _ => rfl) (fun _ => rfl) (fun _ => rfl), hd, [.reject c k], rfl,
+        by simp [Ev.isFailure, Ev.isCtlFailure, Ev.isAbort]⟩
 
 /-! ### the poll phase -/
 
@@ -475,7 +494,7 @@ theorem pollStruct_empty : PollStruct (empty .poll) :=
 theorem pollGood_applyOp (s : State) (c k) (h : PollGood s) : PollGood (applyOp s c k) := by
   refine ⟨(applyOp_be s c k).trans h.1, fun hb => ?_⟩
   obtain ⟨hd, hs⟩ := h.2 (applyOp_blind_mono s c k hb)
-  obtain ⟨h1, h2⟩ := pollStruct_applyOp h.1 hs c k hb
+  obtain ⟨h1, h2, _⟩ := pollStruct_applyOp h.1 hs c k hb
   exact ⟨h2.trans hd, h1⟩
 
 theorem pollGood_quiet (s t : State) (q : Quiet s t) (h : PollGood s) : PollGood t := by
@@ -516,5 +535,26 @@ theorem pollGood_run (ins : List In) : PollGood (run (init .poll) ins) := by
     | cons i r ih => exact ⟨trivial, ih _⟩
   exact run_induction (Q := fun _ _ => True) pollGood_applyOp pollGood_quiet pollGood_cb
     (fun s ready nret h _ _ => pollGood_poll s ready nret h) pollGood_book ins _ pollGood_init hA
+
+
+/-! ### refinement: the non-negative `pollfds_` entries are the specification map -/
+
+theorem pollStruct_refines {s : State} (hbe : s.be = .poll) (h : PollStruct s)
+    (fd : Int) (mask : Nat) : watched s fd mask ↔ specWatched s fd mask := by
+  simp only [watched, hbe, specWatched]
+  constructor
+  · rintro ⟨hfd, hmem⟩
+    obtain ⟨d, hd1, hd2, _⟩ := h.slot hmem
+    have hnn : 0 ≤ (entryOf (s.chans d).events d).1 := by rw [← hd2]; exact hfd
+    obtain ⟨hne, hfst⟩ := entryOf_nonneg hnn
+    have h1 : fd = (entryOf (s.chans d).events d).1 := congrArg Prod.fst hd2
+    have h2 : mask = (s.chans d).events := congrArg Prod.snd hd2
+    exact ⟨d, h1.trans hfst, hd1, h2.symm, h2 ▸ hne⟩
+  · rintro ⟨c, rfl, ha, he, hm⟩
+    obtain ⟨_, _, hp⟩ := h.reg c ha
+    refine ⟨by unfold fdOf; omega, ?_⟩
+    have := List.mem_of_getElem? hp
+    rw [he] at this
+    simpa [entryOf, hm] using this
 
 end MuduoVerif.Poller
